@@ -421,6 +421,8 @@ def gen_stop(rng):
     b.main.append(["accept", 0])
     b.helpers.append(h)
     b.meta = {"family": "stop", "trigger": trigger, "when": when}
+    if rng.random() < 0.3 and when != "late":
+        return b.scenario(linger=0.5, timeout=25, perturb=rnd_perturbation(rng))
     return b.scenario(linger=0.5)
 
 
@@ -442,12 +444,15 @@ def runner_functions():
             def walk(node, prefix):
                 for n in ast.iter_child_nodes(node):
                     if isinstance(n, (ast.FunctionDef, ast.AsyncFunctionDef)):
-                        _RUNNER_FUNCS.append(prefix + n.name)
+                        _RUNNER_FUNCS.append((fn, prefix + n.name))
                         walk(n, prefix + n.name + ".<locals>.")
                     elif isinstance(n, ast.ClassDef):
                         walk(n, prefix + n.name + ".")
             walk(tree, "")
     return _RUNNER_FUNCS
+
+
+PREFER_FILES = []      # set by main(): the runner modules named in the property's anchors
 
 
 def rnd_perturbation(rng):
@@ -456,9 +461,14 @@ def rnd_perturbation(rng):
     polling cycles)"""
     if rng.random() < 0.4:
         return {"p": rng.choice([0.01, 0.03, 0.08]), "sleep": rng.choice([0.001, 0.004, 0.015]), "seed": rng.randrange(10 ** 6)}
-    fs = runner_functions()
-    k = min(len(fs), rng.choice([6, 10, 16]))
-    return {"funcs": rng.sample(fs, k), "p": 0.3, "sleep": rng.choice([0.08, 0.15]),
+    allf = runner_functions()
+    pref = [q for (f, q) in allf if f in PREFER_FILES] or [q for (_f, q) in allf]
+    rest = [q for (_f, q) in allf]
+    k = min(len(rest), rng.choice([6, 10, 16]))
+    picked = set(rng.sample(pref, min(len(pref), (2 * k) // 3)))
+    while len(picked) < k:
+        picked.add(rng.choice(rest))
+    return {"funcs": sorted(picked), "p": 0.3, "sleep": rng.choice([0.08, 0.15]),
             "max": 8, "total": 30, "seed": rng.randrange(10 ** 6), "budget_s": 30 * 0.15}
 
 
@@ -515,6 +525,15 @@ def gen_adopt(rng):
             b.main.append(["adopt", 0, slow])
         h += [["set", "burst"], ["sleep", rng.choice([0.0, 0.005, 0.02])]]
     h.append(["shutdown", 0])
+    if rng.random() < 0.3:
+        # a second outside thread adopts while accept() is still launching the runners
+        h3 = [["wait", "launch"]]
+        for _ in range(rng.choice([2, 4, 6])):
+            fl = rng.choice(FLS)
+            pid = b.payload(fl, rnd_bystander_script(rng, fl), rnd_cleanup(rng, fl), *rnd_args(rng))
+            h3 += [["adopt", 0, pid], ["sleep", rng.choice([0.0, 0.001, 0.003])]]
+        b.helpers.append(h3)
+        b.main.append(["set", "launch"])
     b.main.append(["accept", 0])
     b.helpers.insert(0, h)
     b.meta = {"family": "adopt", "race": race, "perturbed": bool(perturb)}
@@ -608,10 +627,41 @@ def gen_overlap(rng):
             pid = b.payload(fl, [["section", 1500], ["sleep", 0], ["section", 1500]])
             h2.append(["execute", 0, pid])
         b.helpers.append(h2)
-    h += [["sleep", SETTLE + 0.3], ["mark", "settled"], ["shutdown", 0]]
+    # coroutine payloads adopted from a thread that runs a private asyncio loop must still land in the
+    # runtime's loops
+    for _ in range(rng.choice([0, 1, 2])):
+        fl = rng.choice(["asyncio", "trio"])
+        script = []
+        for _ in range(20):
+            script += [["section", rng.choice([200, 1000])], ["sleep", 0]]
+        pid = b.payload(fl, script + [["forever"]])
+        if rng.random() < 0.5:
+            h.append(["adopt_private_loop", 0, pid])
+        else:
+            parent = b.payload("threading", [["adopt_private_loop", 0, pid], ["step"], ["forever"]])
+            h.append(["adopt", 0, parent])
+    teardown = rng.random() < 0.35
+    if teardown:
+        # the runtime is torn down by a failure while thread payloads keep executing coroutine payloads:
+        # a slow shielded trio cleanup holds the teardown window open
+        slow = b.payload("trio", [["forever"]], {"sync": 1, "shield": 0.6, "shield_steps": 3})
+        b.main.append(["adopt", 0, slow])
+        for _ in range(2):
+            script = []
+            for _ in range(40):
+                fl = rng.choice(["asyncio", "trio"])
+                q = b.payload(fl, [["section", 800], ["sleep", 0], ["section", 800]])
+                script += [["execute", 0, q], ["sleep", 0.01]]
+            caller = b.payload("threading", script)
+            h.append(["adopt", 0, caller])
+        failing = b.payload(rng.choice(["asyncio", "threading"]), [["wait", "fail"], ["raise", 0]])
+        b.main.append(["adopt", 0, failing])
+        h += [["sleep", 0.25], ["set", "fail"]]
+    else:
+        h += [["sleep", SETTLE + 0.3], ["mark", "settled"], ["shutdown", 0]]
     b.main.append(["accept", 0])
     b.helpers.insert(0, h)
-    b.meta = {"family": "overlap"}
+    b.meta = {"family": "overlap", "teardown": teardown}
     return b.scenario(linger=0.3, switchinterval=rng.choice([0.005, 0.0005, 0.00005]))
 
 
@@ -633,10 +683,10 @@ def gen_lifecycle(rng):
         ends.append(how)
         h.append(["wait_running", r])
         if r == 0 or rng.random() < 0.4:
-            h.append(["accept", extra])          # concurrent accept on another instance: must be rejected
-            extra_used = True
-            b.runners.append({"accept_delay": 0.05})
-            extra = len(b.runners) - 1
+            for _ in range(rng.choice([1, 2, 3])):
+                h.append(["accept", extra])      # concurrent accept on another instance: must be rejected, every time
+                b.runners.append({"accept_delay": 0.05})
+                extra = len(b.runners) - 1
         offs = rng.choice([0.0, 0.0, 0.013, 0.05, 0.2])
         if offs:
             h.append(["sleep", offs])
@@ -666,6 +716,10 @@ def gen_lifecycle(rng):
         b.main.append(["set", "ended%d" % r])
     b.helpers.append(h)
     b.meta = {"family": "lifecycle", "ends": ends}
+    if rng.random() < 0.4:
+        # (no quiescence claims under long injected delays)
+        b.helpers = [[st for st in prog if st[0] != "mark"] for prog in b.helpers]
+        return b.scenario(timeout=30, linger=0.3, perturb=rnd_perturbation(rng))
     return b.scenario(timeout=20, linger=0.3)
 
 
@@ -710,6 +764,19 @@ def corpus(pid):
                     "helpers": [[["wait_running", 0], ["adopt", 0, 2], ["sleep", 0.3], ["mark", "m"], ["set", "fail"]]],
                     "timeout": 10, "linger": 0.3,
                     "meta": {"family": "fail", "fails": [["p", 0, "asyncio", ["raise", 0]], ["p", 1, "trio", ["return", 0]]], "immediate": False}})
+    if pid == "C03":
+        # adoption from an outside thread WHILE accept() is launching the runners (fixed defect
+        # C03-adopt-during-launch): the launch is held open by delays inside the launching functions
+        for seed in (3, 5, 8):
+            out.append({"runners": [{"accept_delay": 0.05}],
+                        "payloads": {str(k): {"flavour": FLS[k % 3], "script": [["forever"]], "args": [k]} for k in range(6)},
+                        "services": {}, "main": [["set", "go"], ["accept", 0]],
+                        "helpers": [[["wait", "go"], ["adopt", 0, 0], ["adopt", 0, 1], ["adopt", 0, 2], ["sleep", 0.002],
+                                     ["adopt", 0, 3], ["adopt", 0, 4], ["adopt", 0, 5], ["sleep", 2.5], ["mark", "m"], ["shutdown", 0]]],
+                        "perturb": {"funcs": ["MetaRunner.register_payload", "MetaRunner._launch_runners",
+                                              "MetaRunner._unqueue_payloads", "MetaRunner._manage_runners"],
+                                    "p": 0.5, "sleep": 0.05, "max": 8, "total": 40, "seed": seed},
+                        "timeout": 15, "linger": 0.3, "meta": {"family": "adopt", "launch_race": True}})
     if pid == "C02":
         for fl in ("asyncio", "threading"):
             out.append({"runners": [{"accept_delay": 0.05}],
@@ -1196,6 +1263,14 @@ def main(pid, coq_targets, tier=None, seed=None, replay=None):
     if not okc:
         broken.append({"kind": "correspondence", "detail": "RTCorr does not build: " + logc[-800:]})
 
+    try:
+        with open(os.path.join(common.VERIF, "properties.jsonl")) as fh:
+            for line in fh:
+                pr = json.loads(line)
+                if pr["id"] == pid:
+                    PREFER_FILES[:] = [os.path.basename(f) for f in pr["anchors"]["files"] if "/runners/" in f]
+    except Exception:
+        pass
     n = (N_THOROUGH if chk.tier == "thorough" else N_QUICK)[pid]
     rng = chk.rng("scenarios")
     scns = gen_scenarios(pid, rng, n)
@@ -1215,9 +1290,16 @@ def main(pid, coq_targets, tier=None, seed=None, replay=None):
         return v2, msgs2, hp2, bool(bad2)
 
     reported = set()
+    tried = {}
     n_viol = 0
     n_mism = 0
     for (i, msgs) in viol:
+        kinds0 = sorted({m.split(":")[0] for m in msgs})
+        if all(k in reported or tried.get(k, 0) >= 3 for k in kinds0):
+            n_viol += 1 if any(k in reported for k in kinds0) else 0
+            continue
+        for k in kinds0:
+            tried[k] = tried.get(k, 0) + 1
         v2, msgs2, _hp2, _b2 = rerun(i)
         kinds = {m.split(":")[0] for m in msgs} & {m.split(":")[0] for m in msgs2}
         if not kinds:
@@ -1233,7 +1315,7 @@ def main(pid, coq_targets, tier=None, seed=None, replay=None):
                        "model": diagnose(pid, coq_trace(v2.log, v2.scn))})
     mism_detail = []
     for i in bad:
-        if i in [x for (x, _m) in viol]:
+        if i in [x for (x, _m) in viol] or len(mism_detail) >= 3:
             continue
         v2, msgs2, hp2, b2 = rerun(i)
         if not b2:
